@@ -20,7 +20,9 @@ type Ctx struct {
 }
 
 func NewCtx(p *core.Program, tier, verif string) *Ctx {
-	return &Ctx{P: p, Tier: tier, VerifDir: verif, cache: map[string]interface{}{}}
+	c := &Ctx{P: p, Tier: tier, VerifDir: verif, cache: map[string]interface{}{}}
+	core.CondOracle = c.knownCond
+	return c
 }
 
 // Rule is one check.
